@@ -32,6 +32,8 @@ def extras(rnd):
         body = "add rax, 0x" + "0" * (kept - 12) + "12"
         for tail in ("", " ", "\t", "  \t ", " ;c", ";c", "\r\n", " \r\n", "\r", " \r", " % m", " !", " x", "\n"):
             out.append((body + tail).encode())
+        for tail in (b"\x80", b"\xc3\xa9", b" \xff", b"\x80\n", b"\xe9 ;c", b"\x7f", b" \x01\x80"):
+            out.append(body.encode() + tail)
     base = ["add rax, rcx", "MOV  RAX ,\t[ RBX + 4 * RCX - 0x10 ]", "\tvpaddb ymm1,ymm2,[rax]", "lea rcx, [rax+rsp] % m", "label:", "  ; only", "ret\r", "Jmp Short 0x5",
             "mov qword [rax], 0x5", "\x01\x02add rax, rcx", "add\x7frax", "add rax, \xff", "add r\x80x, rcx ; c", "a" * 99, "a" * 98 + " b", " " * 150 + "nop", "nop" + " " * 150]
     out += [b.encode("latin-1") for b in base]
